@@ -23,6 +23,7 @@ P = {
     "C10": (True, "panic-edge ledger (totality)", "Static rule discharge of totality only: no unaudited panic edge reachable from with_template/template. Rendering fidelity is NOT decided.", "3/C10"),
     "C11": (True, "dispatch-table arm-effects vs documented keys", "Static rule discharge: each documented key has an arm that formats the expected accessor with the expected formatter; the shared scratch buffer is fresh for every placeholder; tracker write/tick/reset lifecycle and ordering; final tick string when finished. Not text equality.", "3/C11"),
     "C12": (True, "unit (qualifier) inference Cols/Bytes", "Static rule discharge of unit discipline (columns vs bytes never mixed; no column value as byte offset), padding structure per alignment, every width placeholder always goes through the padded field, wide_msg is a truncating rest-of-line field. Rendered width for all strings is NOT decided; the truncation defect is a listed known finding.", "3/C12"),
+    "C13": (True, "dataflow + comparison-fact (dominating edge) analysis + operand polarity over format_bar / BarDisplay", "PARTIAL - structural clauses only. Static rule discharge: the cell count is the integer quotient width / char_width and the raw width is used for nothing else; filled = truncation of fraction * cells (no rounding call); the partial-cell flag is true exactly under fill > 0 and filled < cells (both strict, nothing else); the partial cell exists iff the flag is set, its index derives from the configured characters and is never increased; background = cells - filled - flag (polarity of each operand) with non-wrapping subtraction, drawn with the last configured character; BarDisplay writes chars[0] filled times, then chars[cur] once, then the background, in that order; format_bar is given ProgressState::fraction(), which is clamped to [0,1]; wide_bar's width is the terminal width minus the measured rest of the line and is never enlarged. NOT decided: off-by-one cell counts / partial-cell indices caused by f32 rounding at particular (fraction, width, charset) triples, monotonicity in the position, exactness up to 2^24 - these need the values.", "3/C13"),
     "C14": (True, "field-invariant producer/consumer + panic ledger", "Static rule discharge: every divisor/index bound the renderer takes from a style table is established by a guard at every public writer of that table; render-path panic ledger.", "3/C14"),
     "C15": (True, "panic-edge ledger (totality)", "Static rule discharge of totality: no unaudited panic edge in format.rs Display impls; plus one structural faithfulness clause (HumanCount digits come from u64 formatting, no float detour). Rounding/monotonicity NOT decided.", "3/C15"),
     "C16": (True, "setter/holder completeness dataflow", "Static rule discharge: every text setter expands with the bar's current width; every width/style change reaches every holder of expanded text; cache invalidation pairing; encapsulation of the raw text.", "3/C16"),
@@ -32,7 +33,6 @@ P = {
 }
 
 NA = {
-    "C13": "Float-rounding geometry over (fraction,width,charset) triples; deciding it means evaluating format_bar, which is not static analysis. Shape-level protections are checked under C07/C12/C14. See DESIGN.md 3/C13.",
 }
 
 
